@@ -1,4 +1,5 @@
 import CogentModel.Proofs.ClustalDecor
+import CogentModel.Proofs.ClustalDecorCheck
 import CogentModel.Props.C06Clustal
 /-! # C06 — Clustal / MUSCLE files that are NOT writer shaped
 
@@ -68,6 +69,11 @@ theorem clustal_decorated_eq_written (wrap : Option Nat) (hw : ∀ w, wrap = som
   refine ⟨t, h1, ?_⟩
   rw [h2, clustal_decorated_roundtrip true recs h.1 (fun r hr => (h.2 r hr).1) c cs hc hcut lines hd]
 
+/-- the executable recogniser the driver runs on every generated decorated file is sound: `true` means the file has the
+shape the theorems above quantify over (so the generator's files are inside the theorems' domain, checked each run) -/
+theorem checkDecorated_sound (ps : List (Str × Str)) (lines : List Str) (h : checkDecorated ps lines = true) :
+    Decorated ps lines := checkDecorated_sound' lines ps h
+
 -- non-vacuity: a MUSCLE file with a header, a blank line, tab padding, a running residue count, a consensus line led by
 -- a tab, a second header in the middle, trailing blanks and a CR; two records, two blocks of different widths
 private def exRecs : List Rec := [(['s', '1'], ['A', 'C', '-']), (['t'], ['G', 'G', 'T'])]
@@ -82,6 +88,7 @@ example : Decorated (blockPairs exRecs [fun r => r.2.take 2, fun r => r.2.drop 2
   .seq (['s', '1'], ['-']) _ (.plain [' ', ' '] [' ', ' '] (by decide) (by decide) (by decide)) <|
   .seq (['t'], ['T']) _ (.plain [' ', '\t', ' '] ['\r'] (by decide) (by decide) (by decide)) <|
   .deco _ (by decide) .nil
+example : checkDecorated (blockPairs exRecs [fun r => r.2.take 2, fun r => r.2.drop 2]) exLines = true := by decide
 example : clustalParser true exLines = .ok exRecs := by decide
 example : clustalParser false exLines = .ok exRecs := by decide
 example : clustalParser true (['x'] :: exLines) ≠ clustalParser true exLines := by decide
